@@ -2,6 +2,7 @@
 RpcNode.request replaced by a recording stub that succeeds or raises on demand) vs
 Client/MultiNode.v `run`, exhaustively over outcome scripts for 1..4 nodes."""
 import itertools
+import os
 
 import requests
 
@@ -27,23 +28,35 @@ def make_exc(sym, rng, node_mod):
 class Client:
     """One RpcMultiNode over n stubbed nodes, driven call by call."""
 
-    def __init__(self, n, node_mod, rng):
+    def __init__(self, n, node_mod, rng, pattern=None):
         self.n = n
         self.node_mod = node_mod
         self.rng = rng
-        self.uris = [f'http://node{k}.test:8732' for k in range(n)]
+        # pattern: which address each position uses, e.g. (0, 0, 1) = ['a', 'a', 'b'] (an address listed twice)
+        self.pattern = tuple(pattern) if pattern else tuple(range(n))
+        self.uris = [f'http://node{k}.test:8732' for k in self.pattern]
         self.mn = node_mod.RpcMultiNode(list(self.uris))
-        self.contacted = []   # per call: list of node indices that received a request
+        self.contacted = []   # per call: list of node positions (by object identity) that received a request
+        self.contacted_uris = []
         self.events = []
 
+    def position(self, node_self):
+        nodes = getattr(self.mn, 'nodes', None)
+        if isinstance(nodes, (list, tuple)):
+            for k, nd in enumerate(nodes):
+                if nd is node_self:
+                    return k
+        uri = getattr(node_self, 'uri', [None])[0]
+        return self.uris.index(uri) if uri in self.uris else BAD
+
     def call(self, sym, stub_state):
-        hits = []
+        hits, hit_uris = [], []
         token = object()
         exc = None if sym == 'S' else make_exc(sym, self.rng, self.node_mod)
 
         def behaviour(node_self, method, path, **kw):
-            uri = node_self.uri[0]
-            hits.append(self.uris.index(uri) if uri in self.uris else BAD)
+            hits.append(self.position(node_self))
+            hit_uris.append(getattr(node_self, 'uri', [None])[0])
             if exc is not None:
                 raise exc
             return token
@@ -57,6 +70,7 @@ class Client:
         else:
             ev = ('Other', hits, f'{type(val).__name__}: {val}'[:120] if not ok else 'returned ' + repr(val)[:80])
         self.contacted.append(list(hits))
+        self.contacted_uris.append(list(hit_uris))
         self.events.append(ev)
         return ev
 
@@ -65,8 +79,8 @@ class Client:
         return v if isinstance(v, int) and 0 <= v < BAD else BAD
 
 
-def run_impl(n, script, rng, node_mod):
-    """Returns (events, final _next_i, contacted lists)."""
+def run_impl(n, script, rng, node_mod, pattern=None):
+    """Returns (events, final _next_i, contacted positions, contacted uris, configured uris)."""
     stub_state = {}
     saved = node_mod.RpcNode.request
 
@@ -75,10 +89,10 @@ def run_impl(n, script, rng, node_mod):
 
     node_mod.RpcNode.request = stub
     try:
-        c = Client(n, node_mod, rng)
+        c = Client(n, node_mod, rng, pattern)
         for s in script:
             c.call(s, stub_state)
-        return c.events, c.final(), c.contacted
+        return c.events, c.final(), c.contacted, c.contacted_uris, c.uris
     finally:
         node_mod.RpcNode.request = saved
 
@@ -102,7 +116,8 @@ def run_interleaved(n1, s1, n2, s2, rng, node_mod):
             else:
                 b.call(s2[ib], stub_state)
                 ib += 1
-        return (a.events, a.final(), a.contacted), (b.events, b.final(), b.contacted)
+        return ((a.events, a.final(), a.contacted, a.contacted_uris, a.uris),
+                (b.events, b.final(), b.contacted, b.contacted_uris, b.uris))
     finally:
         node_mod.RpcNode.request = saved
 
@@ -110,11 +125,14 @@ def run_interleaved(n1, s1, n2, s2, rng, node_mod):
 def spec_oracle(n, script, obs):
     """(B) the property itself on the implementation's observation: request i reaches node i mod n
     (exactly one node), whatever happened before."""
-    events, _final, contacted = obs
+    events, _final, contacted, contacted_uris, uris = obs
+    distinct = len(set(uris)) == len(uris)
     for i, hits in enumerate(contacted):
-        if hits != [i % n]:
-            where = f'node(s) {hits}' if hits else 'no node'
-            return i, f'request {i} of a {n}-node client went to {where}, expected node {i % n} (earlier outcomes: {"".join(script[:i])})'
+        # what is visible on the wire is the address; with distinct addresses that is the node position itself
+        if contacted_uris[i] != [uris[i % n]] or (distinct and hits != [i % n]):
+            where = f'{contacted_uris[i]} (position {hits})' if hits else 'no node'
+            return i, (f'request {i} of a client over {uris} went to {where}, expected node {i % n} = {uris[i % n]} '
+                       f'(earlier outcomes: {"".join(script[:i])})')
     for i, ev in enumerate(events):
         if ev[0] != 'Sent' or ev[2] != script[i]:
             return i, f'request {i}: the caller did not receive the outcome of the contacted node ({ev})'
@@ -126,7 +144,7 @@ def coq_case(n, script):
 
 
 def coq_obs(obs):
-    events, final, _ = obs
+    events, final = obs[0], obs[1]
     out = []
     for ev in events:
         if ev[0] == 'Sent':
@@ -142,7 +160,7 @@ def scripts(ctx):
     """(n, script) pairs: exhaustive part."""
     out = []
     if ctx.thorough:
-        plans = [('SRC', 10), ('SRCO', 7)]
+        plans = [('SR', 12), ('SRC', 9), ('SRCO', 6)]
     else:
         plans = [('SR', 10), ('SC', 8), ('SRCO', 5)]
     seen = set()
@@ -161,8 +179,9 @@ def run(ctx: lib.Ctx) -> None:
     import pytezos.rpc.node as node_mod
 
     ctx.rule = ('exhaustive: every outcome script over {Success, RpcError} up to length 10, {Success, transport error} up to 8 and '
-                '{Success, RpcError, transport error, other exception} up to length 5 (thorough: 3 outcomes up to length 10, 4 up to 7) '
-                'for 1..4 nodes, per-node RpcNode.request stubbed; plus random scripts of length 11..60 for 1..7 nodes and pairs of '
+                '{Success, RpcError, transport error, other exception} up to length 5 (thorough: 2 outcomes up to 12, 3 up to 9, 4 up to 6) '
+                'for 1..4 nodes with distinct addresses, per-node RpcNode.request stubbed (node identified by object position); the same over 8 node lists '
+                'that repeat an address (e.g. a,a,b / a,b,a,c) with scripts up to length 8 (thorough 11); plus random scripts of length 11..60 for 1..7 nodes and pairs of '
                 'clients used alternately. non-trivial = at least one failing outcome before the last request and n >= 2; '
                 'distinct = distinct (n, script)')
     cases, meta = [], []
@@ -170,8 +189,8 @@ def run(ctx: lib.Ctx) -> None:
     def add(n, script, obs, kind):
         script = tuple(script)
         nontriv = n >= 2 and any(s != 'S' for s in script[:-1])
-        ctx.case((n, script), nontrivial=nontriv, kind=kind,
-                 sample={'nodes': n, 'script': ''.join(script), 'targets': [h for h in obs[2]], 'final_next_i': obs[1]})
+        ctx.case((n, script, tuple(obs[4])), nontrivial=nontriv, kind=kind,
+                 sample={'nodes': n, 'uris': obs[4], 'script': ''.join(script), 'targets': [h for h in obs[2]], 'final_next_i': obs[1]})
         cases.append((coq_case(n, script), coq_obs(obs)))
         meta.append((n, script, obs))
 
@@ -183,6 +202,14 @@ def run(ctx: lib.Ctx) -> None:
     for n, script in scripts(ctx):
         obs = run_impl(n, script, ctx.rng, node_mod)
         add(n, script, obs, f'n{n}:len{len(script)}')
+    # the same address listed more than once: rotation is over positions, every listed position gets its turn
+    patterns = [(0, 0), (0, 0, 1), (0, 1, 0), (0, 1, 1), (0, 1, 0, 2), (0, 0, 1, 1), (0, 1, 2, 0), (0, 0, 0, 1)]
+    for pat in patterns:
+        n = len(pat)
+        for alpha, maxlen in ([('SR', 8), ('SRCO', 3)] if not ctx.thorough else [('SR', 11), ('SRCO', 6)]):
+            for ln in range(n, maxlen + 1):
+                for tup in itertools.product(alpha, repeat=ln):
+                    add(n, tup, run_impl(n, tup, ctx.rng, node_mod, pat), f'repeated-address:n{n}')
     # random long scripts, more nodes
     for _ in range(ctx.n(150, 1500)):
         n = ctx.rng.choice([1, 2, 3, 4, 5, 7])
@@ -200,7 +227,7 @@ def run(ctx: lib.Ctx) -> None:
         add(n2, s2, o2, 'interleaved')
     ctx.extra['exhaustive'] = True
 
-    bad = ctx.coq_mismatches('multinode', IMPORTS, 'run_case', 'obs_eqb', 'nat * list outcome', 'list event * nat',
+    bad = ctx.coq_mismatches(f'multinode{os.getpid()}', IMPORTS, 'run_case', 'obs_eqb', 'nat * list outcome', 'list event * nat',
                              cases, shard=ctx.n(1000, 2000))
 
     # (B) on every observation; report the shortest failing scripts
@@ -214,13 +241,13 @@ def run(ctx: lib.Ctx) -> None:
         n, script, obs = meta[idx]
         short = list(script[:at + 1])
         ctx.violation(f'rotation violated: {why}',
-                      {'nodes': n, 'script': short, 'legend': 'S success, R RpcError, C requests ConnectionError/Timeout, O other exception',
-                       'contacted': obs[2][:at + 1], 'events': [list(e) for e in obs[0][:at + 1]],
-                       'repro': f"harness/c28.py: run_impl({n}, {short!r}, random.Random(0), pytezos.rpc.node) -- "
-                                f"RpcMultiNode over {n} nodes with RpcNode.request stubbed to produce these outcomes; compare contacted node of each call with i % {n}"})
+                      {'nodes': n, 'uris': obs[4], 'script': short, 'legend': 'S success, R RpcError, C requests ConnectionError/Timeout, O other exception',
+                       'contacted_positions': obs[2][:at + 1], 'contacted_uris': obs[3][:at + 1], 'events': [list(e) for e in obs[0][:at + 1]],
+                       'repro': f"RpcMultiNode({obs[4]!r}) with RpcNode.request stubbed to produce the outcomes {short!r} in turn "
+                                f"(harness/c28.py run_impl); compare the address contacted by call i with uris[i % {n}]"})
     if not fails and bad:
         n, script, obs = meta[bad[0]]
         ctx.violation('implementation no longer corresponds to the model the theorems are about',
-                      {'correspondence': 'C28/RpcMultiNode.request vs Client.MultiNode.run', 'nodes': n, 'script': list(script),
+                      {'correspondence': 'C28/RpcMultiNode.request vs Client.MultiNode.run', 'nodes': n, 'uris': obs[4], 'script': list(script),
                        'observed': {'events': [list(e) for e in obs[0]], 'final_next_i': obs[1]},
                        'model': ctx.coq_eval(IMPORTS, f'run_case {coq_case(n, script)}'), 'disagreements': len(bad)}, found=False)
